@@ -58,7 +58,7 @@ func TestC03(t *testing.T) {
 	vcore.Parallel(len(bs), 6, func(i int) {
 		b := bs[i]
 		tag := b.c.String() + "-" + b.backend
-		res := r.RunChild("TestC03Child", tag, []string{"VERIF_C03_CURVE=" + b.c.String(), "VERIF_C03_BACKEND=" + b.backend}, 45*time.Minute)
+		res := r.RunChild("TestC03Child", tag, []string{"VERIF_C03_CURVE=" + b.c.String(), "VERIF_C03_BACKEND=" + b.backend}, 20*time.Minute)
 		if res.OK {
 			r.Count("children.completed", 1)
 			return
